@@ -5,7 +5,7 @@ CONSTANTS
   MaxWire = 3
   BarrierBug = FALSE
   ResetLoose = FALSE
-  LoseFlagInClosing = FALSE
+  LoseFlagInClosing = TRUE
   LocalOps = {"read", "read1", "write", "bigwrite", "flush", "close", "close_read", "drop"}
   EnvOps = {"eof", "block", "unblock"}
   Frames = {"data", "big", "fin", "stop", "reset"}
